@@ -49,6 +49,7 @@ def required(tier):
         "shape.nonterminal_rep": 50,
         "shape.same_base_twice": 50,
         "shape.rule_with_action": 100,
+        "shape.rule_in_several_definitions": 100,
         "greedy.cases": 1000,
         "greedy.single_maximal_tree": 300,
         "greedy.plain_alternative_accepted": 30,
@@ -168,7 +169,7 @@ TERMS = 'terminals\na: "a";\nb: "b";\ncomma: ",";'
 def make_grammar(rng):
     stats = set()
     nts = rng.choice([[], ["A"], ["A", "B"]])
-    nalt = rng.choice([1, 1, 2])
+    nalt = rng.choice([1, 1, 2, 2, 3])
     alts = []
     for _ in range(nalt):
         alts.append([gen_elem(rng, 2, nts, stats) for _ in range(rng.choice([1, 2, 2, 3]))])
@@ -223,7 +224,12 @@ def make_grammar(rng):
         stats.add("rule_with_action")
         if rng.random() < 0.5:
             plain = ["@wrap\n" + x for x in plain]
-    sugared = head + "S: " + " | ".join(" ".join(elem_text(e) for e in alt) for alt in alts) + ";\n" + "\n".join(plain) + "\n" + TERMS
+    if nalt >= 2 and not head and rng.random() < 0.4:
+        # the same rule written in several definitions (groups are numbered per rule across them)
+        stats.add("rule_in_several_definitions")
+        sugared = "\n".join("S: " + " ".join(elem_text(e) for e in alt) + ";" for alt in alts) + "\n" + "\n".join(plain) + "\n" + TERMS
+    else:
+        sugared = head + "S: " + " | ".join(" ".join(elem_text(e) for e in alt) for alt in alts) + ";\n" + "\n".join(plain) + "\n" + TERMS
     ex = Expander()
     s_alts = [" ".join(ex.elem(e) for e in alt) for alt in alts]
     expanded = head + "S: " + " | ".join(s_alts) + ";\n" + "\n".join(plain + ex.rules) + "\n" + TERMS
